@@ -56,6 +56,8 @@ func init() {
 			obBalanceOrigin(c, "C01.1", r)
 			obGate(c, "C01.2", r)
 			obPending(c, "C01.3", r)
+			obPendingScan(c, "C01.3b", r)
+			obPushBack(c, "C01.7", r)
 			obApplyPostings(c, "C01.4", r)
 			obSaveMonotone(c, "C01.5", r)
 			obSign(c, "C01.6")
